@@ -371,7 +371,18 @@ class Gen:
             tgt = [e for e, t in self.writables(cx) if t == u[1]] if not cx.pure else []
             if tgt and self.rng.random() < 0.6:
                 return Addr(self.rng.choice(tgt))
-            return New(self.leaf(cx, u[1], d - 1) if not is_int(under(u[1])) and under(u[1]) not in (BOOL, STR) else Zero(u[1]))
+            if is_int(under(u[1])) or under(u[1]) in (BOOL, STR):
+                return New(Zero(u[1]))
+            inner = self.leaf(cx, u[1], d - 1)
+            if isinstance(inner, (StructLit, SeqLit)):
+                return New(inner)                  # &T{…}
+            if isinstance(inner, (VarRef, Sel, Index, Deref, GlobRef)) and not cx.pure:
+                return Addr(inner)                 # the address of an existing place
+            tu = under(u[1])
+            if isinstance(tu, tuple) and tu[0] == 'named' and tu[1].kind == 'struct' and self.can_build(cx, u[1]):
+                dd = tu[1]
+                return New(StructLit(u[1], [Zero(ft) if fn == '_' else self.expr(cx, ft, 0) for fn, ft, emb in dd.fields]))
+            return New(Zero(u[1]))
         if h == 'func':
             return self.closure(cx, ty)
         raise ValueError(ty)
